@@ -44,8 +44,8 @@ def check_balance(ctx: RuleContext, sb: StackBalance, cg: CallGraph, tag: str):
     n_pop_sites = len(cg.sites.get(pop_q, []))
     ctx.counters["push_call_sites"] = n_push_sites
     ctx.counters["pop_call_sites"] = n_pop_sites
-    ctx.floor(f"{tag}.1", "push_call_sites", 3)
-    ctx.floor(f"{tag}.1", "pop_call_sites", 3)
+    ctx.floor(f"{tag}.1", "push_call_sites", 2)
+    ctx.floor(f"{tag}.1", "pop_call_sites", 2)
 
     cm_classes = 0
     for f in m.all_functions():
